@@ -20,6 +20,21 @@ let handle = function
       let hs = List.filter (function EHeader _ -> true | _ -> false) evs
       and rs = List.filter (function EHeader _ -> false | _ -> true) evs in
       String.concat "" (List.map event_s (hs @ rs)) ^ "|" ^ final_s fin
+  | "aread" :: sep :: comment :: header :: chunks ->
+      (* the abstract Scanner loop of Proofs/CsvChunks.v (theorem csv_chunk_independent) *)
+      let c = { c_sep = z_of_string sep; c_comment = z_of_string comment; c_header = b2 header } in
+      let chunks = List.map bytes_of_hex chunks in
+      let evs = arun (S (msr [] chunks false)) c { st_noBOM = false; st_row = z_of_int 0 } [] chunks false in
+      let hs = List.filter (function EHeader _ -> true | _ -> false) evs
+      and rs = List.filter (function EHeader _ -> false | _ -> true) evs in
+      String.concat "" (List.map event_s (hs @ rs)) ^ "|eof"
+  | ["readall"; sep; comment; header; data] ->
+      (* the reader run over the whole input (read_file of Proofs/CsvRoundtrip.v) *)
+      let c = { c_sep = z_of_string sep; c_comment = z_of_string comment; c_header = b2 header } in
+      let evs = read_file c (bytes_of_hex data) in
+      let hs = List.filter (function EHeader _ -> true | _ -> false) evs
+      and rs = List.filter (function EHeader _ -> false | _ -> true) evs in
+      String.concat "" (List.map event_s (hs @ rs)) ^ "|eof"
   | "write" :: sep :: crlf :: fields ->
       "ok " ^ hex_of_bytes (write_record (z_of_string sep) (b2 crlf) (List.map bytes_of_hex fields))
   | "join" :: sep :: crlf :: fields ->
